@@ -26,7 +26,8 @@ Proof. intros H. exact (wf_no_null_route c (load_ok_wellformed vl o c H)). Qed.
    FALSE on the unchanged tree in four ways, each reproduced by the harness against the real code and repaired by
    its own `fix:` commit (witnesses in corpus/C17, replayed first on every run):
      F4  routes: [null]                                       -> checkReceiver dereferences the nil child
-         slack/opsgenie/wechat/rocketchat_configs: [null]      -> accepted, then LoadFile dereferences it
+         slack/opsgenie/wechat/rocketchat_configs: [null]      -> accepted with the nil left in the list, then
+                                                                  LoadFile (resolveFilepaths) dereferences it
      slack update_message: true without api_url               -> c.APIURL.String() on nil
      global http_config: null + slack or msteamsv2 receiver   -> *c.Global.HTTPConfig on nil
      global slack_app_token + slack_api_url_file              -> c.Global.SlackAPIURL.String() on nil
@@ -128,9 +129,15 @@ Example c17_null_route_item_is_an_error :
     = Err E_ROUTE_NULL.
 Proof. vm_compute. split; reflexivity. Qed.
 
-Example c17_null_integration_item_is_an_error :
-  load_validate (fun _ => true) (Some (ex_doc None [("slack", [None])])) = Err E_INT_NULL.
-Proof. vm_compute. reflexivity. Qed.
+(* null integration items: rejected for 14 kinds; for slack/opsgenie/wechat/rocketchat validated as an empty config
+   (which the globals may complete) and then STORED in place of the nil *)
+Example c17_null_integration_items :
+  load_validate (fun _ => true) (Some (ex_doc None [("webhook", [None])])) = Err E_INT_NULL /\
+  load_validate (fun _ => true) (Some (ex_doc None [("slack", [None])])) = Err E_INT_SETTING /\
+  (exists c, load_validate (fun _ => true)
+     (Some (ex_doc (Some (DGlobal 1 (Some "https://hooks.example/x") (Some "https://slack.com/api/chat.postMessage")
+                                  [(false, false); (true, false)] [])) [("slack", [None])])) = Ok c).
+Proof. vm_compute. repeat split. eexists. reflexivity. Qed.
 
 Example c17_secrets_masked :
   let t := VMap [("global", VMap [("smtp_auth_password", VSecret "hunter2")]); ("receivers", VList [VMap [("name", VStr "a"); ("url", VSecret "https://u:p@h/")]; VSecret ""])] in
